@@ -60,6 +60,7 @@ def san_env(rundir, tag):
     env = dict(os.environ)
     env["ASAN_OPTIONS"] = "abort_on_error=1:detect_leaks=0:log_path=%s" % os.path.join(rundir, "san.cli." + tag)
     env["UBSAN_OPTIONS"] = "print_stacktrace=1:halt_on_error=1:abort_on_error=1:log_path=%s" % os.path.join(rundir, "san.cli." + tag)
+    env["TSAN_OPTIONS"] = "halt_on_error=0:exitcode=0:second_deadlock_stack=1:history_size=5:log_path=%s" % os.path.join(rundir, "san.tsan." + tag)
     env["HOME"] = rundir
     return env
 
@@ -785,6 +786,132 @@ def c35_daemon(ctx):
             part.sig(i, hostile)
             part.sample({"hostile_connections": hostile, "alive": alive, "served": served})
         finally:
+            d.kill()
+            shutil.rmtree(work, ignore_errors=True)
+    return part.done()
+
+
+# --------------------------------------------------------------------------- C36: the real `eph serve` under ThreadSanitizer
+def c36_daemon(ctx):
+    """The real daemon binary (tsan flavour: main.cpp's serve loop, ControlServer, Node, SessionManager as shipped) with
+    concurrent control clients and real peer nodes (`mtool peer`, separate processes).  Every TSan report of the daemon
+    process is classified by lib/post_race.py."""
+    import glob
+    import post_race
+    part = Part(ctx)
+    rng = random.Random(ctx["seed"] * 104729 + 36)
+    rundir = ctx["rundir"]
+    runs = 8 if ctx["thorough"] else 1
+    seconds = 12 if ctx["thorough"] else 7
+    mtool_exe = runner.exe_path(ctx["bdirs"]["asan"], "mtool")
+    for i in range(runs):
+        work = os.path.join(rundir, "c36d", "r%d" % i)
+        os.makedirs(work)
+        cport, tport = free_port(), free_port()
+        peer_hex = "%064x" % rng.getrandbits(256)
+        idseed = rng.randrange(1, 1 << 31)
+        base = ["--control-port", str(cport), "--transport-port", str(tport), "--storage-dir", os.path.join(work, "st"), "--yes",
+                "--identity-seed", str(idseed), "--peer-id", peer_hex, "--announce-pow", "0", "--key-rotation", "5"]
+        tag = "c36d.%d" % i
+        d = DaemonProc(ctx, base, tag, work)
+        peers = []
+        try:
+            if not wait_control(cport, 40):
+                part.inconclusive("daemon (tsan build) did not start")
+                continue
+            npeers = 2 + rng.randrange(2)
+            env = san_env(rundir, "c36peer.%d" % i)
+            for k in range(npeers):
+                peers.append(subprocess.Popen([mtool_exe, "peer", "--port", str(tport), "--peer-id", peer_hex, "--identity-seed", str(idseed),
+                                               "--seconds", str(seconds), "--seed", str(rng.randrange(1, 1 << 30))],
+                                              env=env, stdout=subprocess.PIPE, stderr=subprocess.DEVNULL, cwd=work))
+            stop_at = time.time() + seconds
+            counts = {"ops": 0, "stores": 0, "fetches": 0}
+            lock = threading.Lock()
+            manifests = []
+
+            def store_once(n):
+                # STORE needs a proof of work over (chunk id, size, name): the real CLI computes it
+                f = os.path.join(work, "up%d.bin" % n)
+                open(f, "wb").write(os.urandom(64 + n))
+                rc, out, err = run_eph(ctx, base + ["store", f, "--ttl", "120"], work, "c36s.%d.%d" % (i, n), timeout=90)
+                m = re.search(r"(eph://\S+)", out)
+                if m:
+                    with lock:
+                        manifests.append(m.group(1))
+                        counts["stores"] += 1
+
+            def storer():
+                n = 0
+                while time.time() < stop_at and n < 5:   # the daemon admits 6 STOREs per 30 s and client
+                    store_once(n)
+                    n += 1
+
+            def client(seed):
+                r = random.Random(seed)
+                while time.time() < stop_at:
+                    k = r.randrange(8)
+                    try:
+                        if k <= 2 and manifests:
+                            with lock:
+                                m = manifests[r.randrange(len(manifests))]
+                            f = control_request(cport, "COMMAND:FETCH\nMANIFEST:%s\nSTREAM:client\n\n" % m, timeout=20)
+                            if f.get("STATUS") == "OK":
+                                with lock:
+                                    counts["fetches"] += 1
+                        else:
+                            control_request(cport, "COMMAND:%s\n\n" % ["LIST", "STATUS", "DEFAULTS", "DIAGNOSTICS", "METRICS"][k % 5], timeout=20)
+                        with lock:
+                            counts["ops"] += 1
+                    except OSError:
+                        pass
+                    time.sleep(r.random() * 0.004)
+
+            threads = [threading.Thread(target=client, args=(rng.randrange(1 << 30),)) for _ in range(4)] + [threading.Thread(target=storer)]
+            for t in threads:
+                t.start()
+            for t in threads:
+                t.join()
+            peer_ops = 0
+            for p in peers:
+                try:
+                    out, _ = p.communicate(timeout=60)
+                except subprocess.TimeoutExpired:
+                    p.kill()
+                    out = b""
+                m = re.search(rb"PEER ops=(\d+) handshakes=(\d+) connects=(\d+) announces=(\d+) pushes=(\d+)", out)
+                if m:
+                    peer_ops += int(m.group(1))
+                    part.note("daemon36.peer-announces", int(m.group(4)))
+            alive = d.alive()
+            if alive:
+                d.p.send_signal(signal.SIGINT)
+                try:
+                    d.p.wait(timeout=40)
+                except subprocess.TimeoutExpired:
+                    pass
+            part.note("daemon36.runs")
+            part.note("daemon36.control-ops", counts["ops"])
+            part.note("daemon36.control-stores", counts["stores"])
+            part.note("daemon36.control-fetches", counts["fetches"])
+            part.note("daemon36.peer-ops", peer_ops)
+            part.note("daemon36.tick-seconds", seconds)
+            if not alive:
+                rcode = d.p.poll()
+                key = runner.crash_signature([d.output()]) or ("signal:%d" % -rcode if rcode and rcode < 0 else "exit:%s" % rcode)
+                part.violation("C36:daemon:tsan-build-died:" + key, {"daemon_output": d.output()[-800:]}, i)
+            logs = sorted(glob.glob(os.path.join(rundir, "san.tsan.%s.*" % tag)))
+            reports, families, descriptor = post_race.collect(logs, post_race.repo_roots())
+            part.note("daemon36.tsan-reports", reports)
+            part.note("daemon36.tsan-descriptor-lifecycle-reports-out-of-scope", descriptor)
+            for key, blocks in sorted(families.items()):
+                part.violation(key, {"reports": len(blocks), "where": "real eph serve", "first_report": blocks[0][:30000]}, i)
+            part.sig(i, counts["ops"] > 0, peer_ops > 0, npeers)
+            part.sample({"run": i, "peers": npeers, "seconds": seconds, "control_ops": counts["ops"], "peer_ops": peer_ops, "tsan_reports": reports})
+        finally:
+            for p in peers:
+                if p.poll() is None:
+                    p.kill()
             d.kill()
             shutil.rmtree(work, ignore_errors=True)
     return part.done()
